@@ -254,7 +254,7 @@ def main():
       'replay_cmd_template': f'./check {pid} --replay {{path}}',
       'engine': 'fjsa',
       'level_claimed': {'category': 'other', 'text': c['text'] + (' ' + EXTRA[pid] if pid in EXTRA else '') + FORWARD_NOTE,
-                        'design_ref': c['design'] + '; sections 9.5-9.12'},
+                        'design_ref': c['design'] + '; sections 9.5-9.13'},
       'level_note': c.get('note', '') + ('' if not c.get('note') else ' ') + COMMON_NOTE,
       'technique': c['technique'],
     })
